@@ -55,7 +55,8 @@ def contents(d):
 EMPTY = '{| c_regal := RAbsent; c_yaml := YAbsent |}'
 
 
-def tree_case(I, t):
+def tree_cases(I, t):
+    """the case of the tree itself and one case per differently spelled start path"""
     # the temporary tree root is called "/R" in the case data (no temp paths): the chain handed to
     # the model is "/" (empty), "R" (the tree root), then the levels of the tree
     root = t['root']
@@ -70,7 +71,7 @@ def tree_case(I, t):
     lv = [] if at_root else ['(%s, %s)' % (I.s('R'), contents(dirs[0]))]
     for name, d in zip(t.get('names') or [], dirs[1:]):
         lv.append('(%s, %s)' % (I.s(name), contents(d)))
-    file = copt(I.s('p.rego') if t['spec']['start_file'] else None)
+    c0 = contents(dirs[0]) if at_root else EMPTY
 
     def fres(path, err):
         if err:
@@ -97,9 +98,24 @@ def tree_case(I, t):
         if c:
             home = t['spec']['home']
             cli = '(Some (%s, %s, %s))' % (cbool(home in ('dir', 'cfg')), cbool(home == 'cfg'), c)
-    return ('{| tc_root := %s; tc_levels := %s; tc_file := %s; tc_found := %s; tc_dir := %s; tc_yaml := %s; tc_cli := %s |}'
-            % (contents(dirs[0]) if at_root else EMPTY, clist(lv), file, fres(t['found'], t['found_err']), ures(t['regal_dir'], t['regal_dir_err']),
-               ures(t['yaml_file'], t['yaml_file_err']), cli))
+
+    def case(levels, file, cwd, arg, o, cli):
+        return ('{| tc_root := %s; tc_levels := %s; tc_file := %s; tc_cwd := %s; tc_arg := %s; tc_found := %s; tc_dir := %s; '
+                'tc_yaml := %s; tc_cli := %s |}'
+                % (c0, clist(levels), file, I.s(cwd), I.s(arg), fres(o['found'], o['found_err']),
+                   ures(o['regal_dir'], o['regal_dir_err']), ures(o['yaml_file'], o['yaml_file_err']), cli))
+    file = copt(I.s('p.rego') if t['spec']['start_file'] else None)
+    out = [(case(lv, file, '/', canon(t['start']), t, cli), None)]
+    for so in t.get('spelled') or []:
+        arg = so['arg'] if so['cwd'] else canon(so['arg'])
+        cwd = so['cwd'] or '/'
+        if so['target'] == 'parent':
+            if not lv:
+                continue
+            out.append((case(lv[:-1], 'None', cwd, arg, so, 'None'), so))
+        else:
+            out.append((case(lv, file, cwd, arg, so, 'None'), so))
+    return out
 
 
 def jval(I, v):
@@ -332,6 +348,7 @@ def eval_config_chunk(ctx, k, items, tables, lookup, preal):
     defs.append('Definition rcases : list roundtrip_case := %s.' % clist(rcases))
     q = {
         'U1': 'failing (unmarshal_ok lookup_tbl %s) 0 ucases' % DASH,
+        'U2': 'failing (fun c => doc_wf (uc_doc c)) 0 ucases',
         'M1': 'failing merge_model_ok 0 mcases',
         'M2': 'failing merge_spec_ok 0 mcases',
         'M3': 'failing merge_in_domain 0 mcases',
@@ -344,12 +361,50 @@ def eval_config_chunk(ctx, k, items, tables, lookup, preal):
     if preal is not None and k == 0:
         q['G1'] = '(if config_eqb_nocaps provided_real provided_config && negb provided_has_capabilities then [] else [0])%nat'
     r = eval_lists(ctx, 'Cases_C18_configs_%d' % k, HEADER, defs, q)
-    out = {'U1': [uidx[i] for i in r['U1']], 'G1': r.get('G1', [])}
+    out = {'U1': [uidx[i] for i in r['U1']], 'U2': [uidx[i] for i in r['U2']], 'G1': r.get('G1', [])}
     for key in ('M1', 'M2', 'M3'):
         out[key] = [midx[i] for i in r[key]]
     for key in ('R1', 'R2', 'R3', 'R4', 'R5'):
         out[key] = [ridx[i] for i in r[key]]
     return out, len(ucases), len(mcases), len(rcases)
+
+
+def restated_default_probe(ctx, regal):
+    """through the real binary (Go merge + Rego rule): a user configuration that restates ONE option of
+    style.rule-length with its provided value must not change the lint result.  Returns a list of
+    (config text, rule-length rows without config, rows with it) that differ."""
+    import subprocess
+    from concurrent.futures import ThreadPoolExecutor
+    lines = ['package p_test', '', 'import rego.v1', '', 'test_long if {'] + ['\tx%d := %d' % (i, i) for i in range(70)] + ['}', '', 'obj := {'] \
+        + ['\t"k%d": %d,' % (i, i) for i in range(40)] + ['}', '', 'short if {'] + ['\ty%d := %d' % (i, i) for i in range(35)] + ['}', '']
+    data = __import__('yaml').safe_load(open(os.path.join(vlib.REPO, 'bundle', 'regal', 'config', 'provided', 'data.yaml')))
+    opts = {k: v for k, v in data['rules']['style']['rule-length'].items() if k != 'level'}
+
+    def rows(job):
+        n, cfg = job
+        d = os.path.join(ctx.tmp, 'probe%d' % n)
+        pol = os.path.join(d, 'p')
+        home = os.path.join(d, 'home')
+        os.makedirs(pol, exist_ok=True)
+        os.makedirs(home, exist_ok=True)
+        with open(os.path.join(pol, 'p_test.rego'), 'w') as f:
+            f.write('\n'.join(lines))
+        if cfg is not None:
+            with open(os.path.join(d, '.regal.yaml'), 'w') as f:
+                f.write(cfg)
+        p = subprocess.run([regal, 'lint', '--format', 'json', pol], cwd=d, env=dict(os.environ, HOME=home), capture_output=True, text=True, timeout=300)
+        try:
+            rep = json.loads(p.stdout)
+        except ValueError:
+            return 'unparsable: ' + (p.stderr or p.stdout)[-300:]
+        return sorted(v['location']['row'] for v in rep.get('violations', []) if v['title'] == 'rule-length')
+    cfgs = [None] + ['rules:\n  style:\n    rule-length:\n      %s: %s\n' % (k, json.dumps(v)) for k, v in sorted(opts.items())]
+    with ThreadPoolExecutor(max_workers=6) as ex:
+        res = list(ex.map(rows, enumerate(cfgs)))
+    base = res[0]
+    bad = [{'config': c, 'rule_length_rows_without_config': base, 'rule_length_rows_with_config': r}
+           for c, r in zip(cfgs[1:], res[1:]) if r != base]
+    return base, bad
 
 
 def corpus_specs(kind):
@@ -407,17 +462,43 @@ def run(ctx):
         raise RuntimeError(env_err[0]['what'])
     trees = [t for t in trees if t['kind'] == 'tree']
 
-    I = Interner()
-    tdefs = [tree_case(I, t) for t in trees]
-    defs = list(I.defs) + ['Definition trees : list tree_case := %s.' % clist(tdefs)]
-    r = eval_lists(ctx, 'Cases_C18_trees', HEADER, defs, {
-        'T1': 'failing tree_model_ok 0 trees',
-        'T2': 'failing tree_spec_ok 0 trees',
-        'T3': 'failing tree_cli_model_ok 0 trees',
-        'T4': 'failing tree_cli_spec_ok 0 trees',
-        'T5': 'failing tree_in_domain 0 trees',
-        'T6': 'failing tree_file_spec_ok 0 trees',
-    }) if trees else {k: [] for k in ('T1', 'T2', 'T3', 'T4', 'T5', 'T6')}
+    TK = ('T1', 'T2', 'T3', 'T4', 'T5', 'T6')
+    r = {k: [] for k in TK}
+
+    spelled_bad = []     # (tree index, spelled observation, failing check)
+    n_spelled = [0]
+
+    def eval_tree_chunk(kc):
+        k, idx = kc
+        I = Interner()
+        tdefs, owner = [], []
+        for i in idx:
+            for term, so in tree_cases(I, trees[i]):
+                tdefs.append(term)
+                owner.append((i, so))
+        n_spelled[0] += sum(1 for _, so in owner if so is not None)
+        defs = list(I.defs) + ['Definition trees : list tree_case := %s.' % clist(tdefs)]
+        rr = eval_lists(ctx, 'Cases_C18_trees_%d' % k, HEADER, defs, {
+            'T1': 'failing tree_model_ok 0 trees',
+            'T2': 'failing tree_spec_ok 0 trees',
+            'T3': 'failing tree_cli_model_ok 0 trees',
+            'T4': 'failing tree_cli_spec_ok 0 trees',
+            'T5': 'failing tree_in_domain 0 trees',
+            'T6': 'failing tree_file_spec_ok 0 trees',
+        })
+        for key in TK:
+            for j in rr[key]:
+                if owner[j][1] is not None:
+                    spelled_bad.append((owner[j][0], owner[j][1], key))
+        return {key: sorted({owner[j][0] for j in rr[key] if owner[j][1] is None}) for key in TK}
+    if trees:
+        from concurrent.futures import ThreadPoolExecutor
+        TCH = 450
+        tchunks = [(k, list(range(i, min(i + TCH, len(trees))))) for k, i in enumerate(range(0, len(trees), TCH))]
+        with ThreadPoolExecutor(max_workers=4) as ex:
+            for rr in ex.map(eval_tree_chunk, tchunks):
+                for key in TK:
+                    r[key] += rr[key]
 
     for t in trees:
         if t.get('at_root'):
@@ -442,6 +523,19 @@ def run(ctx):
         vlib.violation(ctx, {'kind': 'find-vs-nearest', 'case': t['spec'], 'observed': {k: t[k] for k in ('start', 'found', 'found_err')},
                              'what': 'config.FindConfig did not return what the closest directory holding a configuration yields'},
                        signature=tree_sig('find-vs-nearest', t))
+    # the same directory asked for with another spelling must give the same answer
+    for i, so, key in sorted([x for x in spelled_bad if x[2] == 'T2'],
+                             key=lambda x: (len(trees[x[0]]['spec']['dirs']), len(x[1]['arg'])))[:1]:
+        t = trees[i]
+        if True:
+            vlib.violation(ctx, {'kind': 'find-vs-nearest-spelled', 'case': t['spec'], 'spelling': so,
+                                 'what': 'config.FindConfig(%r) (cwd %r) does not give what the closest directory above the path it denotes yields'
+                                         % (so['arg'].replace(t['root'], '<root>') if not t.get('at_root') else so['arg'], so['cwd'])},
+                           signature={'kind': 'find-vs-nearest-spelled', 'key': tree_key(t['spec']) + '|' + so['target']})
+    if [x for x in spelled_bad if x[2] in ('T1', 'T5')] and not ctx.violations:
+        i, so, key = [x for x in spelled_bad if x[2] in ('T1', 'T5')][0]
+        vlib.violation(ctx, {'kind': 'correspondence', 'relation': 'Check.C18Check.tree_model_ok on a spelled start path (Model/FindConfig.v abs_path / find_upwards)',
+                             'case': trees[i]['spec'], 'spelling': so, 'check': key}, no_input=True)
     # the strict reading (only configuration FILES count): deviations that are explained by a .regal/ directory
     # without config.yaml are the open finding (one signature per effect), anything else has its own signature
     seen_file = set()
@@ -505,7 +599,7 @@ def run(ctx):
     # the cases are evaluated in chunks (own case file each, a few at a time)
     CH = 260
     chunks = [(k, list(range(i, min(i + CH, len(merges))))) for k, i in enumerate(range(0, len(merges), CH))]
-    res = {k: [] for k in ('U1', 'M1', 'M2', 'M3', 'R1', 'R2', 'R3', 'R4', 'R5', 'G1')}
+    res = {k: [] for k in ('U1', 'U2', 'M1', 'M2', 'M3', 'R1', 'R2', 'R3', 'R4', 'R5', 'G1')}
     n_u = n_m = n_r = 0
     if merges:
         from concurrent.futures import ThreadPoolExecutor
@@ -565,6 +659,12 @@ def run(ctx):
         vlib.violation(ctx, {'kind': 'yaml-roundtrip', 'case': small, 'which': which, 'lost': cls,
                              'what': 'yaml.Unmarshal(yaml.Marshal(c)) differs from c in: ' + cls},
                        signature={'kind': 'yaml-roundtrip', 'key': cls})
+    # the same through the real binary and the Rego rule
+    probe_base, probe_bad = ([], []) if ctx.replay else restated_default_probe(ctx, regal)
+    for b in probe_bad[:1]:
+        vlib.violation(ctx, {'kind': 'restating-a-default-changes-the-lint-result', 'case': {'kind': 'probe'}, 'observed': b,
+                             'what': 'regal lint reports different rule-length violations once .regal.yaml restates one option of the rule with its default value'},
+                       signature={'kind': 'merge-changes-unwritten-setting', 'key': 'option X lost (user did not set it)'})
     # correspondence
     for key, rel in (('U1', 'unmarshal_ok (Model/ConfigMerge.v unmarshal)'), ('M1', 'merge_model_ok (Model/ConfigMerge.v load)'),
                      ('R1', 'marshal_model_ok (Model/ConfigMerge.v marshal)'), ('R2', 'reload_model_ok (unmarshal (marshal c))')):
@@ -597,26 +697,29 @@ def run(ctx):
     distinct_cfg = len({json.dumps([x['spec'].get('provided'), x['spec']['yaml_doc']], sort_keys=True) for x in merges
                         if x['spec']['yaml_doc'].get('rules')})
     cov = proof_coverage(ctx, {
-        'evaluations': len(trees) * 3 + sum(1 for t in trees if t['spec']['cli']) + n_u + n_m + 2 * n_r,
+        'evaluations': (len(trees) + n_spelled[0]) * 3 + sum(1 for t in trees if t['spec']['cli']) + n_u + n_m + 2 * n_r,
         'distinct_nontrivial': distinct_trees + distinct_cfg,
         'rule': 'trees: distinct (placement of .regal / .regal.yaml entries per directory, start from dir or file, user-level state) tuples; '
                 'exhaustive for {none,.regal/config.yaml} x {none,.regal.yaml} per directory on chains of depth 0..4 plus chains with '
                 'config-less .regal/ directories and random wrong-kind entries; configs: distinct (provided, user yaml) pairs whose user '
                 'document configures at least one rule',
         'trees_at_file_system_root': sum(1 for t in trees if t.get('at_root')), 'root_level_trees_skipped': jail_skipped,
+        'spelled_start_paths': n_spelled[0], 'mismatch_spelled': len(spelled_bad) - sum(1 for x in spelled_bad if x[2] == 'T6'),
         'trees': len(trees), 'trees_through_cli': sum(1 for t in trees if t['spec']['cli']), 'tree_depth_histogram': hist,
         'tree_outcomes': outcomes,
         'unmarshal_cases': n_u, 'unmarshal_classes': uclass, 'merge_cases': n_m,
         'merge_cases_real_bundle': sum(1 for x in merges if x.get('provided_ref') == 'real' and 'merged' in x),
         'roundtrip_cases': n_r, 'roundtrip_capabilities_not_restored': rt_caps_lost,
-        'merge_cases_outside_theorem_domain': len(res['M3']), 'roundtrip_cases_outside_theorem_domain': len(res['R5']),
+        'user_documents_outside_theorem_domain': len(res['U2']), 'merge_cases_outside_theorem_domain': len(res['M3']), 'roundtrip_cases_outside_theorem_domain': len(res['R5']),
+        'restated_default_probe': {'rule_length_rows': probe_base, 'configs_changing_the_result': len(probe_bad)},
         'user_config_mutated_by_load': sum(1 for x in merges if x.get('pred_user_mutated')),
         'mismatch_tree_model': len(r['T1']), 'mismatch_tree_spec': len(r['T2']), 'mismatch_tree_spec_files_only': len(r['T6']), 'mismatch_cli_model': len(r['T3']),
         'mismatch_cli_spec': len(r['T4']), 'mismatch_unmarshal': len(res['U1']), 'mismatch_merge_model': len(res['M1']),
         'mismatch_merge_spec': len(res['M2']), 'mismatch_marshal': len(res['R1']), 'mismatch_reload': len(res['R2']),
         'mismatch_roundtrip_spec': len(res['R3']),
         'samples': [trees[len(trees) // 2]['spec'] if trees else None,
-                    {k: trees[len(trees) // 3].get(k) for k in ('found', 'found_err', 'cli_choice')} if trees else None,
+                    {k: (trees[len(trees) // 3].get(k) or '').replace(trees[len(trees) // 3]['root'], '<root>')
+                     for k in ('found', 'found_err', 'cli_choice')} if trees else None,
                     merges[len(merges) // 2]['spec']['yaml_doc'] if merges else None],
         'exhaustive': False,
     })
